@@ -2913,55 +2913,6 @@ where
                         let mut puback_send = false;
                         let mut pubrec_send = false;
 
-                        let mut check_receive_maximum =
-                            |events: &mut Vec<GenericEvent<PacketIdType>>| {
-                                if let Some(max) = self.publish_recv_max {
-                                    if self.publish_recv.len() >= max as usize {
-                                        self.handle_v5_0_error(
-                                            MqttError::ReceiveMaximumExceeded,
-                                            events,
-                                        );
-                                        return false;
-                                    }
-                                }
-                                true
-                            };
-
-                        match packet.qos() {
-                            Qos::AtLeastOnce => {
-                                let packet_id = packet.packet_id().unwrap();
-                                if !check_receive_maximum(&mut events) {
-                                    return events;
-                                }
-                                self.publish_recv.insert(packet_id);
-                                if self.auto_pub_response
-                                    && self.status == ConnectionStatus::Connected
-                                {
-                                    puback_send = true;
-                                }
-                            }
-                            Qos::ExactlyOnce => {
-                                let packet_id = packet.packet_id().unwrap();
-                                if !check_receive_maximum(&mut events) {
-                                    return events;
-                                }
-                                self.publish_recv.insert(packet_id);
-
-                                if !self.qos2_publish_handled.insert(packet_id) {
-                                    already_handled = true;
-                                }
-                                if self.status == ConnectionStatus::Connected
-                                    && (self.auto_pub_response || already_handled)
-                                {
-                                    pubrec_send = true;
-                                }
-                            }
-                            Qos::AtMostOnce => {
-                                // No packet ID handling for QoS 0
-                            }
-                        }
-
-                        // Topic Alias handling
                         if packet.topic_name().is_empty() {
                             // Extract topic from topic_alias
                             if let Some(ta) = Self::get_topic_alias_from_props(packet.props()) {
@@ -3023,6 +2974,57 @@ where
                         }
 
                         // Send response packets
+                        // Flow control and duplicate bookkeeping only for a PUBLISH that passed the
+                        // topic alias validation above (a rejected packet leaves no trace)
+                        let mut check_receive_maximum =
+                            |events: &mut Vec<GenericEvent<PacketIdType>>| {
+                                if let Some(max) = self.publish_recv_max {
+                                    if self.publish_recv.len() >= max as usize {
+                                        self.handle_v5_0_error(
+                                            MqttError::ReceiveMaximumExceeded,
+                                            events,
+                                        );
+                                        return false;
+                                    }
+                                }
+                                true
+                            };
+
+                        match packet.qos() {
+                            Qos::AtLeastOnce => {
+                                let packet_id = packet.packet_id().unwrap();
+                                if !check_receive_maximum(&mut events) {
+                                    return events;
+                                }
+                                self.publish_recv.insert(packet_id);
+                                if self.auto_pub_response
+                                    && self.status == ConnectionStatus::Connected
+                                {
+                                    puback_send = true;
+                                }
+                            }
+                            Qos::ExactlyOnce => {
+                                let packet_id = packet.packet_id().unwrap();
+                                if !check_receive_maximum(&mut events) {
+                                    return events;
+                                }
+                                self.publish_recv.insert(packet_id);
+
+                                if !self.qos2_publish_handled.insert(packet_id) {
+                                    already_handled = true;
+                                }
+                                if self.status == ConnectionStatus::Connected
+                                    && (self.auto_pub_response || already_handled)
+                                {
+                                    pubrec_send = true;
+                                }
+                            }
+                            Qos::AtMostOnce => {
+                                // No packet ID handling for QoS 0
+                            }
+                        }
+
+                        // Topic Alias handling
                         if puback_send {
                             let puback = v5_0::GenericPuback::builder()
                                 .packet_id(packet.packet_id().unwrap())
